@@ -74,7 +74,7 @@ Qed.
 
 Lemma cpost_sound : forall s, csound s.
 Proof.
-  induction s as [| a IHa b IHb | | | | | | | | | | | a IHa b IHb | k b IHb | b IHb]; unfold csound; intros st o st' He X Hin Hbad;
+  induction s as [| a IHa b IHb | | | | | | | | | | | | a IHa b IHb | k b IHb | b IHb]; unfold csound; intros st o st' He X Hin Hbad;
     cbn [cpost] in *; rewrite cbad_mk in Hbad.
   - inversion He; subst. split; [discriminate | split; [discriminate | apply csel_mk; exact Hin]].
   - apply corb_f in Hbad. destruct Hbad as [Hba Hbb].
@@ -99,6 +99,8 @@ Proof.
     + split; [discriminate | split; [discriminate | apply csel_mk]]. cbn [csel cr_n]. destruct X; [destruct Hin | left; reflexivity].
     + split; [discriminate | split; [discriminate | apply csel_mk]]. cbn [csel cr_n]. destruct X; [destruct Hin | right; left; reflexivity].
   - (* CHand *) inversion He; subst. split; [discriminate | split; [discriminate | apply csel_mk]]. cbn [csel cr_n]. apply in_map. exact Hin.
+  - (* CGiveUp *) inversion He; subst. split; [discriminate | split; [discriminate | apply csel_mk]]. cbn [csel cr_n].
+    apply (in_map (fun _ => Free) X st). exact Hin.
   - (* COther *) inversion He; subst. split; [discriminate | split; [discriminate | apply csel_mk; exact Hin]].
   - inversion He; subst. split; [discriminate | split; [discriminate | apply csel_mk; exact Hin]].
   - inversion He; subst. split; [discriminate | split; [discriminate | apply csel_mk; exact Hin]].
@@ -141,10 +143,27 @@ Proof.
   - rewrite Ec in Hin. destruct Hin.
 Qed.
 
-Theorem cflows_ok_sound : forall fs, cflows_ok fs = true -> forall f, In f fs ->
-  forall o st', cexec (cf_body f) Free o st' -> o <> COWait /\ (o = CONormal \/ o = COReturn).
+(* ... and leaves the variable in a state its caller knows about *)
+Theorem cexit_ok_sound : forall held_ok lent_ok body, cbody_ok body = true -> cexit_ok held_ok lent_ok body = true ->
+  forall o st', cexec body Free o st' -> exit_state_ok held_ok lent_ok st' = true.
 Proof.
-  intros fs H f Hin. unfold cflows_ok in H. rewrite forallb_forall in H. apply H in Hin. exact (cbody_ok_sound _ Hin).
+  intros h l body Hok Hex o st' He. destruct (cbody_ok_sound body Hok o st' He) as [_ Ho].
+  unfold cbody_ok in Hok. cbv zeta in Hok. apply andb_true_iff in Hok. destruct Hok as [Hbad _]. apply negb_true_iff in Hbad.
+  destruct (cpost_sound body _ _ _ He [Free] (or_introl eq_refl) Hbad) as [_ [_ Hin]].
+  unfold cexit_ok in Hex. cbv zeta in Hex. apply andb_true_iff in Hex. destruct Hex as [Hn Hr].
+  rewrite forallb_forall in Hn, Hr.
+  destruct Ho as [Ho | Ho]; subst o; cbn [csel] in Hin; auto.
+Qed.
+
+Theorem cflows_ok_sound : forall fs, cflows_ok fs = true -> forall f, In f fs ->
+  forall o st', cexec (cf_body f) Free o st' ->
+    o <> COWait /\ (o = CONormal \/ o = COReturn) /\
+    (exit_is_reviewed f = false -> exit_state_ok (cf_deferred_close f) (cf_returns_chan f) st' = true).
+Proof.
+  intros fs H f Hin o st' He. unfold cflows_ok in H. rewrite forallb_forall in H. apply H in Hin.
+  unfold cflow_ok in Hin. apply andb_true_iff in Hin. destruct Hin as [Hb Hx].
+  destruct (cbody_ok_sound _ Hb o st' He) as [W N]. split; [exact W | split; [exact N |]].
+  intros Hr. rewrite Hr in Hx. cbn [orb] in Hx. exact (cexit_ok_sound _ _ _ Hb Hx o st' He).
 Qed.
 
 (* ---- the analysis is not vacuous *)
@@ -178,7 +197,17 @@ Example break_keeps_the_connection :
   cbody_ok (CLoop LPlain (CSeq CCallL (CSeq (CIf CReturn CSkip) (CLoop LDrain (CIf CReturn CSkip))))) = true /\
   cbody_ok (CLoop LPlain (CSeq CCallL (CSeq (CIf CReturn CSkip) (CLoop LDrain (CIf CBreak CSkip))))) = false /\
   cbody_ok (CSeq CAcq (CSeq CHand CAsk)) = false.
-Proof. vm_compute. auto. Qed.
+Proof. vm_compute. auto 6. Qed.
+
+(* leaving the drain loop by break and returning a slice (not the channel): the caller cannot know that a connection is still
+   out (mutation m2 of round 6); returning an error gives up; a result set may be left to a deferred Close *)
+Example exit_states :
+  cexit_ok false false (CSeq CCallL (CSeq (CLoop LDrain (CIf CBreak CSkip)) CReturn)) = false /\
+  cexit_ok false false (CSeq CCallL (CSeq (CLoop LDrain (CIf (CSeq CGiveUp CReturn) CSkip)) CReturn)) = true /\
+  cexit_ok false true (CSeq CAcq (CSeq CHand CReturn)) = true /\
+  cexit_ok false false (CSeq CAcq (CSeq (CLoop LRows (CIf CReturn CSkip)) CReturn)) = false /\
+  cexit_ok true false (CSeq CAcq (CSeq (CLoop LRows (CIf CReturn CSkip)) CReturn)) = true.
+Proof. vm_compute. auto 6. Qed.
 
 (* ------------------------------------------------------------------ Part 1: the pool *)
 Lemma kheld_app : forall a b, kheld (a ++ b) = kheld a + kheld b.
